@@ -31,7 +31,7 @@ def _case(draw):
     w = draw(gens.witness_s(names))
     c1 = draw(gens.wild_contract_s(i1, o1, w, na=(0, 2), ng=(1, 3)))
     c2 = draw(gens.wild_contract_s(i2, o2, w, na=(0, 2), ng=(1, 3)))
-    overlap = draw(st.sampled_from(["none", "dup", "scaled", "implied", "infeasible", "near", "lookalike"]))
+    overlap = draw(st.sampled_from(["none", "dup", "scaled", "implied", "infeasible", "near", "lookalike", "mirror"]))
     common = [v for v in i1 + o1 if v in i2 + o2]
     if overlap != "none" and common:
         src_pool = [t for t in c1["g"] if set(t[0]) <= set(i2 + o2)]
@@ -42,6 +42,14 @@ def _case(draw):
             elif overlap == "scaled":
                 f = draw(st.sampled_from([2, 0.5, 3]))
                 c2["g"].append([{k: v * f for k, v in t[0].items()}, t[1] * f])
+            elif overlap == "mirror":
+                # the same coefficient values on the same variables, but attached the other way round and entered in reverse order
+                ks = list(t[0])
+                if len(ks) >= 2 and len(set(t[0].values())) >= 2:
+                    vals = [t[0][k_] for k_ in ks]
+                    c2["g"].append([dict(zip(reversed(ks), vals)), t[1]])
+                else:
+                    overlap = "none"
             elif overlap == "lookalike":
                 # same variables and constant, one coefficient clearly different (any position): another constraint, not a duplicate
                 k = draw(st.sampled_from(sorted(t[0])))
@@ -53,13 +61,20 @@ def _case(draw):
                 f = 1 + draw(st.sampled_from([5e-6, -5e-6, 2e-6]))
                 c2["g"].append([{n: (v * f if n == k else v) for n, v in t[0].items()}, t[1]])
             elif overlap == "implied":
-                c2["g"].append([dict(t[0]), t[1] + draw(st.sampled_from([0.5, 1]))])
+                c2["g"].append([dict(t[0]), t[1] + draw(st.sampled_from([0.5, 1, 0.25]))])
             else:
                 c2["g"].append([{k: -v for k, v in t[0].items()}, -t[1] - draw(st.sampled_from([1, 2]))])
         else:
             overlap = "none"
     else:
         overlap = "none"
+    if draw(st.integers(0, 5)) == 0:
+        # an unrelated constraint with a constant of 1e5..1e6 somewhere in the merged system
+        tgt = draw(st.sampled_from([c1, c2]))
+        v = draw(st.sampled_from(tgt["o"]))
+        kf = draw(st.sampled_from([1000.0, 100.0, 1.0]))
+        tgt["g"].append([{v: kf}, float(kf * w[v] + draw(st.sampled_from([1e5, 6e5, 1e6])))])
+        overlap += "+big-constant"
     return {"c1": c1, "c2": c2, "shape": shape, "overlap": overlap}
 
 
